@@ -273,7 +273,7 @@ class Setup:
         st = {"registries": world.registries_nonempty()}
         lru = djc_cache.template_cache
         st["lru"] = world.lru_wellformed(lru) if lru is not None else None
-        st["lru_len"] = len(lru.cache) if lru is not None else 0
+        st["lru_len"] = len(lru.cache) if (lru is not None and hasattr(lru, "cache")) else 0
         mc = djc_cache.component_media_cache
         keys = []
         if mc is not None:
